@@ -66,6 +66,15 @@ def _get_weights_stub(disperser, n, width, nsigmas, value, limits, relative):
     The numerical content of a distribution is C02's subject."""
     if not symx._CURRENT or disperser == "array" or int(n) < 2 or width == 0:
         return _REAL_GET_WEIGHTS(disperser, n, width, nsigmas, value, limits, relative)
+    if _GW.get("mode") == "uf":
+        # values and weights as uninterpreted functions of the arguments (equal
+        # settings => equal distribution); weights positive
+        tag = "gw.%s.%d.%s" % (disperser, int(n), "rel" if relative else "abs")
+        xs = [symx.uf("%s.x%d" % (tag, i), width, nsigmas, value) for i in range(int(n))]
+        ws = [symx.uf("%s.w%d" % (tag, i), width, nsigmas, value) for i in range(int(n))]
+        for w in ws:
+            symx.current().assume(w > 0, check=False)
+        return symx.oarray(xs), symx.oarray(ws)
     k = _GW["calls"]
     _GW["calls"] += 1
     L = _GW["length"]
@@ -168,7 +177,11 @@ def input_prefs(ts, salt=0, objs=()):
     for k, (name, c) in enumerate(sorted(symx.consts_of(ts).items())):
         if not name.startswith(("in.", "pre.")) or not z3.is_real(c) or name.endswith("'"):
             continue
-        if name.startswith("pre."):
+        if ".pd" in name:
+            val = 0.1875 if name.startswith("pre.") else 0.125
+        elif ".nsigma" in name:
+            val = 2.5 if name.startswith("pre.") else 2.0
+        elif name.startswith("pre."):
             val = 2.25 + 0.0625 * ((k + salt) % 11)
         elif name.startswith("in.w"):
             val = 0.5 + 0.125 * (k % 3)
@@ -449,7 +462,7 @@ def unit_dll(cfg):
     sinks = {}
 
     def fn():
-        _GW["calls"], _GW["length"] = 0, length
+        _GW["calls"], _GW["length"], _GW["mode"] = 0, length, None
         model = km.make_model()
         W = Watch()
         qv = sym_q(dim)
@@ -654,7 +667,7 @@ def unit_py(cfg):
     A = [z3.Int("in.mode") >= 0, z3.Int("in.mode") <= min(nmodes, 2)] if entry == "call_Fq" else []
 
     def fn():
-        _GW["calls"], _GW["length"] = 0, length
+        _GW["calls"], _GW["length"], _GW["mode"] = 0, length, None
         model = kernelpy.PyModel(py_stub_info(info))
         W = Watch()
         qv = sym_q(dim)
@@ -837,7 +850,12 @@ SV_OPS = {0: "fresh class (no compiled model cached)",
 def sasview_set(m, req):
     for k, v in req["params"].items():
         m.setParam(k, v)
-    for par, (values, wts) in req["disp"].items():
+    for par, d in req["disp"].items():
+        if isinstance(d, dict):       # width / npts / nsigmas through setParam("par.key", value)
+            for key, v in d.items():
+                m.setParam("%s.%s" % (par, key), v)
+            continue
+        values, wts = d
         # an array distribution: the caller's (values, weights) reach the mesh as they are
         disperser = weights.ArrayDispersion()
         disperser.set_weights(values, wts)
@@ -908,7 +926,7 @@ def unit_sasview(cfg):
                           v.t <= symx.rat(hi) if np.isfinite(hi) else None) if c is not None]
 
     def fn():
-        _GW["calls"], _GW["length"] = 0, length
+        _GW["calls"], _GW["length"], _GW["mode"] = 0, length, None
         builds = []
         Model = sasview_model.make_model_from_info(info)      # a new class: _model is None
         with patched_build(lambda i: km.make_model(), builds):
@@ -1128,7 +1146,7 @@ def unit_direct(cfg):
     A = [op_t >= 0, op_t <= 1]
 
     def fn():
-        _GW["calls"], _GW["length"] = 0, length
+        _GW["calls"], _GW["length"], _GW["mode"] = 0, length, None
         builds = []
         data = direct_data(dim, smear)
         W = Watch()
@@ -1386,6 +1404,10 @@ def replay(cex):
         else:
             changed, detail = real_o2_sasview(i["model"], i["entry"], req, i["q"])
             rep, detail = i["watch"] in changed, dict(detail, changed=changed)
+    elif kind in ("sasview-clone", "o2-sasview-clone"):
+        outs, errs, changed = real_clone(i["model"], i["entry"], i["req"], i["mut"], i["q"])
+        rep = len(set(outs)) > 1 if kind == "sasview-clone" else i["watch"] in changed
+        detail = {"exceptions": errs, "changed": changed}
     elif kind == "direct":
         outs, errs = real_direct(i["kind"], i["model"], i["dim"], i["smear"], i["pars"], i["pre"])
         rep, detail = len(set(outs)) > 1, {"exceptions": errs}
@@ -1467,6 +1489,10 @@ def configs(chk):
         ("hardsphere", "1d", None, 2, "evalDistribution", None),
         ("sphere", "2d", None, 2, "calculate_Iq", "sld"),
     ]]
+    items += [("sasview-clone", c) for c in [
+        ("sphere", "1d", "radius", "evalDistribution"),
+        ("cylinder", "2d", "length", "calculate_Iq"),
+    ]]
     items += [("direct", c) for c in [
         ("sphere", "1d", "radius", 2, "DirectModel", False),
         ("sphere", "1d", None, 2, "DirectModel", True),
@@ -1499,7 +1525,8 @@ def configs(chk):
 
 def _units():
     return {"dll": unit_dll, "py": unit_py, "comp": unit_comp, "sasview": unit_sasview,
-            "direct": unit_direct, "template": unit_template, "validate": unit_validate}
+            "direct": unit_direct, "template": unit_template, "validate": unit_validate,
+            "sasview-clone": unit_sasview_clone}
 
 
 def _label(item):
@@ -1578,10 +1605,10 @@ def run(chk):
     items = configs(chk)
     if getattr(chk, "only", None):
         items = [it for it in items if chk.only in _label(it)]
-    need = sorted({cfg[0] for kind, cfg in items if kind in ("dll", "sasview", "direct")})
+    need = sorted({cfg[0] for kind, cfg in items if kind in ("dll", "sasview", "direct", "sasview-clone")})
     pmap(_prebuild, need)
     # long units first
-    order = {"sasview": 0, "direct": 1, "comp": 2, "dll": 3, "py": 4, "template": 5, "validate": 6}
+    order = {"sasview": 0, "direct": 1, "comp": 2, "dll": 3, "py": 4, "template": 5, "validate": 6, "sasview-clone": 0}
     items.sort(key=lambda it: (order[it[0]], 0 if "call_Fq" in _label(it) else 1))
     chk.add(pmap(_dispatch, items))
     chk.extra = {
@@ -1678,3 +1705,164 @@ def unit_validate(cfg):
     u.r["obligations"] += 1          # counted so that the unit is non-trivial; decided numerically
     u.r["discharged"] += 1
     return u.r
+
+
+# --------------------------------------------------------------------------
+# family D': an instance and its clone do not share settings.  The evaluated
+# object's own settings (made before the cloning) are its inputs; what is done
+# to the OTHER object afterwards is history.
+
+CLONE_OPS = {0: "fresh instance configured and evaluated",
+             4: "configured, cloned; the CLONE is re-configured (setParam value/width/npts/nsigmas) and "
+                "evaluated; the ORIGINAL is evaluated",
+             5: "configured, cloned; the ORIGINAL is re-configured and evaluated; the CLONE is evaluated"}
+
+
+def clone_reqs(info, dim, disp):
+    req = sasview_reqs(info, dim, None, None, "in.")
+    req["disp"] = {disp: {"width": symx.real("in.pd." + disp), "npts": 3,
+                          "nsigmas": symx.real("in.nsigma." + disp)}}
+    req["cutoff"] = 0.0
+    mut = {"params": {k: symx.real("pre.v." + k) for k in req["params"]},
+           "disp": {disp: {"width": symx.real("pre.pd." + disp), "npts": 5,
+                           "nsigmas": symx.real("pre.nsigma." + disp)}}, "cutoff": 0.0}
+    return req, mut
+
+
+def clone_history(Model, op, req, mut, q, entry, W=None):
+    """Returns the object to evaluate after the history selected by *op*."""
+    m = Model()
+    sasview_set(m, req)
+    if W is not None:
+        W.add("history:evaluated.params", m.params)
+        W.add("history:evaluated.dispersion", m.dispersion)
+    if op == 0:
+        return m
+    twin = m.clone()
+    if W is not None and op == 5:
+        # the clone is the evaluated object: its settings are those it was cloned with
+        W.items[-2:] = [("history:evaluated.params", twin.params, purity.snapshot(twin.params)),
+                        ("history:evaluated.dispersion", twin.dispersion, purity.snapshot(twin.dispersion))]
+    other, evaluated = (twin, m) if op == 4 else (m, twin)
+    sasview_set(other, mut)
+    sasview_request(other, mut, q, entry)
+    return evaluated
+
+
+def unit_sasview_clone(cfg):
+    name, dim, disp, entry = cfg
+    from sasmodels import sasview_model
+    label = "sasview-clone/%s/%s/%s/%s" % (name, dim, entry, disp)
+    u = Unit(label, timeout_ms=60000)
+    install_shims()
+    km = KModel.get(name)
+    info = km.info
+    req, mut = clone_reqs(info, dim, disp)
+    op_t = z3.Int("pre.op")
+    A = [z3.Or(op_t == 0, op_t == 4, op_t == 5)]
+    by = {par.name: par for par in info.parameters.call_parameters}
+    for k, v in mut["params"].items():
+        lo, hi = by[k].limits
+        A += [c for c in (v.t >= symx.rat(lo) if np.isfinite(lo) else None,
+                          v.t <= symx.rat(hi) if np.isfinite(hi) else None) if c is not None]
+
+    def fn():
+        _GW["calls"], _GW["length"], _GW["mode"] = 0, 3, "uf"
+        builds = []
+        Model = sasview_model.make_model_from_info(info)
+        with patched_build(lambda i: km.make_model(), builds):
+            op = int(Sym(op_t))
+            W = Watch()
+            m = clone_history(Model, op, req, mut, sym_q(dim, "pre."), entry, W)
+            q = sym_q(dim)
+            sink = []
+            with watched_kernel_args(W, sink):
+                r = run_entry(lambda: sasview_request(m, req, q, entry), W)
+        r["mesh"] = sink[-1][0] if sink else None
+        r["pre_state"] = 1 + op
+        r["notes"] = {"prefix": CLONE_OPS[op], "mesh_lengths": [len(e[1]) for e in r["mesh"]] if sink else None}
+        return r
+
+    ex = symx.Explorer(timeout_ms=20000, max_paths=600, abstract=True, int_range=8)
+    paths = ex.explore(fn, A)
+    u.absorb(ex, paths)
+    u.reachable(label, A)
+    u.functions("sasmodels.sasview_model.SasviewModel.clone", "sasmodels.sasview_model.SasviewModel.setParam",
+                "sasmodels.sasview_model.SasviewModel._get_weights", "sasmodels.sasview_model.SasviewModel._calculate_Iq")
+    ctx = dict(name=name, dim=dim, entry=entry, req=req, mut=mut, paths=paths, family="sasview-clone")
+    judge(u, label, paths, _o1_clone_handler(ctx), _o2_clone_handler(ctx), sample_ctx={"config": label},
+          is_ref=lambda p: p.result["pre_state"] == 1)
+    return u.r
+
+
+def real_clone(name, entry, req, mut, q, ops=(0, 4, 5)):
+    """Real SasviewModel: the request after each clone history (bit patterns),
+    and whether the evaluated object's settings survived the history."""
+    from sasmodels import sasview_model
+    outs, errs, changed = [], [], {}
+    qv = [np.asarray(v, dtype=float) for v in q]
+    for op in ops:
+        Model = sasview_model._make_standard_model(name)
+        W = Watch()
+        try:
+            m = clone_history(Model, op, req, mut, [1.5 * v for v in qv], entry, W)
+            outs.append(bits(sasview_request(m, req, qv, entry)))
+            errs.append(None)
+        except Exception as e:
+            outs.append(("raise:" + type(e).__name__).encode())
+            errs.append(repr(e))
+        for lab, phi, diffs, _l in W.check():
+            if not z3.is_true(z3.simplify(phi)):
+                changed.setdefault(lab, []).extend(["op %d: %s" % (op, d) for d in diffs[:3]])
+    return outs, errs, changed
+
+
+def _clone_conc(ctx, mm):
+    req, mut = concretize(mm, ctx["req"]), concretize(mm, ctx["mut"])
+    q = [[0.0125, 0.125]] if ctx["dim"] == "1d" else [[0.0125], [0.03125]]
+    return req, mut, q
+
+
+def _o1_clone_handler(ctx):
+    def factory(rp):
+        def mk(i, j, hyps, phi):
+            def handler(m):
+                prefs = input_prefs(hyps + [phi], objs=[ctx["req"], ctx["mut"]])
+                m2 = generic_model(hyps, [z3.Not(phi)], prefs) or m
+                for mm in (m2, m):
+                    req, mut, q = _clone_conc(ctx, mm)
+                    outs, errs, _ch = real_clone(ctx["name"], ctx["entry"], req, mut, q)
+                    rep = len(set(outs)) > 1
+                    if rep:
+                        break
+                return {"reproduced": bool(rep), "key": "C11/O1/sasview-clone/%s" % ctx["entry"],
+                        "what": "SasviewModel(%s).%s: the result depends on what was done to the other of "
+                                "{instance, clone} (%s | %s)" % (ctx["name"], ctx["entry"],
+                                                                 rp[i].result["notes"]["prefix"][:40],
+                                                                 rp[j].result["notes"]["prefix"][:60]),
+                        "inputs": {"replay": "sasview-clone", "model": ctx["name"], "dim": ctx["dim"],
+                                   "entry": ctx["entry"], "req": jsonable(req), "mut": jsonable(mut), "q": q},
+                        "detail": {"exceptions": errs, "identical": not rep}, "block": None}
+            return handler
+        return mk
+    return factory
+
+
+def _o2_clone_handler(ctx):
+    def mk(pi, wlabel, diffs, log):
+        def handler(m):
+            hyps = ctx["paths"][pi].constraints()
+            m2 = generic_model(hyps, [], input_prefs(hyps, objs=[ctx["req"], ctx["mut"]])) or m
+            req, mut, q = _clone_conc(ctx, m2)
+            _o, errs, changed = real_clone(ctx["name"], ctx["entry"], req, mut, q)
+            rep = wlabel in changed
+            return {"reproduced": bool(rep), "key": "C11/O2/sasview-clone/%s" % wlabel,
+                    "what": "SasviewModel(%s): %s of the evaluated object is changed by operations on its "
+                            "clone / original: %s" % (ctx["name"], wlabel.split(":")[1],
+                                                      (changed.get(wlabel) or diffs)[:3]),
+                    "inputs": {"replay": "o2-sasview-clone", "model": ctx["name"], "dim": ctx["dim"],
+                               "entry": ctx["entry"], "req": jsonable(req), "mut": jsonable(mut), "q": q,
+                               "watch": wlabel},
+                    "detail": {"exceptions": errs}, "block": None}
+        return handler
+    return mk
